@@ -278,8 +278,8 @@ from gpmc import manyobj as _mo
 SUBCHECKS = [
     Sub('geo', gen_geo, ev_geo, chunk=8, floor=1000, envs=6),
     Sub('cart', gen_cart, ev_cart, chunk=8, floor=300, envs=12),
-    Sub('threads', _tg, _te, chunk=1, floor=3, poison=False, fresh=True, timeout=3600),
-    Sub('many_objects', *_mo.make('C03', 'convert'), chunk=1, floor=2, poison=False, fresh=True, timeout=3600), Sub('callforms', *_cf.make('C03', 'convert'), chunk=1, floor=1, guard=True),
+    Sub('threads', _tg, _te, chunk=1, floor=3, poison=False, fresh=True, timeout=7200),
+    Sub('many_objects', *_mo.make('C03', 'convert'), chunk=1, floor=2, poison=False, fresh=True, timeout=7200), Sub('callforms', *_cf.make('C03', 'convert'), chunk=1, floor=1, guard=True),
     Sub('interpreter', *_ip.make('C03', 'convert'), chunk=1, floor=5, poison=False),
 ]
 
